@@ -609,13 +609,20 @@ Inductive pexpr :=
 | PGlob (key : bytes)                (* source.g.<key> *)
 | PVNext (src lst : bytes)           (* source.<src>.<lst>[next]  (list variable of a variables source) *)
 | PPost (req var : bytes)            (* request.<req>.postprocessor.<var> *)
-| PPre (req var : bytes).            (* request.<req>.preprocessor.<var> *)
+| PPre (req var : bytes)             (* request.<req>.preprocessor.<var> *)
+| PCall (v : option bytes).          (* a template function written as the mapping's value, e.g.
+                                        randInt(source.g.k7, source.g.k7): its arguments name source
+                                        variables without [next] (or are literals); the function's
+                                        result is an oracle carried by the expression:
+                                        Some text, or None = the function returned an error *)
 
 Inductive cpost :=
 | CJson (var field : bytes)          (* var/jsonpath  var: $.field *)
 | CHeader (var : bytes)              (* var/header    var: X-Tok *)
 | CStatus (code : Z)                 (* assert/response status_code *)
-| CBody.                             (* assert/response body: ["\"ok\""] *)
+| CBody                              (* assert/response body: ["\"ok\""] *)
+| CBroken.                           (* a postprocessor that fails on every response: var/header whose
+                                        value has a malformed modifier (X-Tok|lower( ) *)
 
 (* what the request's templates do beyond the standard parts (URI with source variables, the dump
    of .request in a header and in the body):
@@ -748,6 +755,7 @@ Definition eval_pexpr (own : N) (e : pexpr) (t : ctree) (w : cworld) : option (c
                | Some sv => match sv_pre sv with Some m => assoc m var | None => None end
                | None => None
                end)
+  | PCall v => Some (w, v)
   end.
 
 Inductive pre_res := PrePanic | PreRes (w : cworld) (r : option (list (bytes * bytes))).
@@ -835,6 +843,7 @@ Fixpoint c_post_go (ps : list cpost) (resp : cresp) (acc : list (bytes * bytes))
       if ((code =? 0) || (code =? rs_status resp))%Z%bool then c_post_go rest resp acc else None
   | CBody :: rest =>
       if rs_okbody resp then c_post_go rest resp acc else None
+  | CBroken :: _ => None
   end.
 
 Definition c_post (rq : creq) (resp : cresp) (w : cworld) : cworld * option (list (bytes * bytes)) :=
